@@ -22,6 +22,10 @@ type PropertySpec struct {
 	Bounded   []string `json:"bounded"` // names of bounded stand-in runners (labelled, never counted as proved)
 	Claim     string   `json:"claim"`
 	NotDecided []string `json:"not_decided"`
+	// NoPropagate: functions whose preconditions are NOT propagated to every caller in the
+	// repository (internal helpers whose precondition is a data-structure invariant the property
+	// does not speak about); their call sites are checked only inside the listed functions.
+	NoPropagate []string `json:"no_propagate"`
 }
 
 type KnownFinding struct {
@@ -174,7 +178,19 @@ func cmdCheck(args []string) int {
 		listed[k] = true
 	}
 	var propagated []string
-	for _, caller := range g.callersOfRequiring(ps.Functions) {
+	var propagating []string
+	for _, k := range ps.Functions {
+		skip := false
+		for _, n := range ps.NoPropagate {
+			if n == k {
+				skip = true
+			}
+		}
+		if !skip {
+			propagating = append(propagating, k)
+		}
+	}
+	for _, caller := range g.callersOfRequiring(propagating) {
 		if listed[caller] {
 			continue
 		}
@@ -183,7 +199,7 @@ func cmdCheck(args []string) int {
 		for _, o := range os {
 			if o.Kind == "requires-callsite" || o.Kind == "unsupported" {
 				keep := o.Kind == "unsupported"
-				for _, k := range ps.Functions {
+				for _, k := range propagating {
 					if strings.Contains(o.Name, "#call."+k+".") {
 						keep = true
 					}
@@ -213,6 +229,11 @@ func cmdCheck(args []string) int {
 	}
 	smtDir := filepath.Join(vdir, ".work", "smt", pid)
 	os.RemoveAll(smtDir)
+	for _, o := range obls {
+		if matchKnown(known, pid, o.Name) != nil {
+			o.QuickOnly = true
+		}
+	}
 	results := DischargeAll(obls, smtDir, quickS, slowS, 8)
 
 	// bounded stand-ins (labelled; never counted as discharged obligations)
@@ -228,6 +249,7 @@ func cmdCheck(args []string) int {
 	violations := 0
 	var lines []string
 	backends := map[string]int{}
+	var knownHit []string
 	for _, r := range results {
 		o := r.Obl
 		nObl++
@@ -244,6 +266,7 @@ func cmdCheck(args []string) int {
 		// a failure that is a recorded known finding
 		if kf := matchKnown(known, pid, o.Name); kf != nil {
 			lines = append(lines, fmt.Sprintf("KNOWN-FINDING: property=%s %s [%s]", pid, kf.What, o.Name))
+			knownHit = append(knownHit, o.Name)
 			continue
 		}
 		violations++
@@ -272,7 +295,7 @@ func cmdCheck(args []string) int {
 		}
 		still := false
 		for _, r := range results {
-			if r.Obl.Name == kf.Obligation && r.Status != "discharged" {
+			if knownMatches(kf.Obligation, r.Obl.Name) && r.Status != "discharged" {
 				still = true
 			}
 		}
@@ -329,7 +352,10 @@ func cmdCheck(args []string) int {
 		samples = append(samples, "none")
 	}
 	cov := map[string]any{
-		"obligations":              nObl,
+		// obligations recorded as known findings (genuine defects, see KNOWN_FINDINGS.jsonl) are
+		// listed apart: they are neither counted as obligations of the claim nor as discharged
+		"obligations":              nObl - len(knownHit),
+		"known_finding_obligations": knownHit,
 		"discharged":               nDis,
 		"checker_cmd":              fmt.Sprintf("bin/govc check %s --tier %s", pid, *tier),
 		"trusted_base":             []string{"go/ssa + go/types (x/tools v0.50.0, go1.26.8)", "govc VC generator (/verif/govc)", "z3 5.1.0 / z3 4.8.12 / cvc5 1.0 (first to answer)", "assumed contracts listed under assumptions"},
@@ -388,7 +414,7 @@ func round3(f float64) float64 { return float64(int(f*1000+0.5)) / 1000 }
 
 func matchKnown(known []KnownFinding, pid, obl string) *KnownFinding {
 	for i := range known {
-		if known[i].Property == pid && known[i].Status == "known" && known[i].Obligation == obl {
+		if known[i].Property == pid && known[i].Status == "known" && knownMatches(known[i].Obligation, obl) {
 			return &known[i]
 		}
 	}
@@ -446,4 +472,13 @@ func (g *Gen) LemmaObligation(name string) *Obligation {
 		return o
 	}
 	return &Obligation{Name: "lemma." + name, Kind: "lemma", Goal: TTrue, Err: "lemma not found in the contract files"}
+}
+
+// knownMatches: a known finding names one obligation, or - with a trailing '*' - all obligations of
+// one call site / clause (its conjuncts and repeated call sites), never a whole function or property.
+func knownMatches(pattern, name string) bool {
+	if strings.HasSuffix(pattern, "*") {
+		return strings.HasPrefix(name, strings.TrimSuffix(pattern, "*"))
+	}
+	return pattern == name
 }
